@@ -1,23 +1,43 @@
 #!/bin/bash
 # MANIFEST.setup_cmd: build everything that does not depend on /repo:
 # the Coq development (full .vo build), the extracted models and their OCaml drivers.
-set -euo pipefail
+# VERIF_SETUP_KEEP_GOING=1 (used by checks during development) builds what it can and
+# leaves the rest to fail in the check that needs it.
+set -uo pipefail
 cd "$(dirname "$0")"
 ROOT=$(pwd)
+KEEP=${VERIF_SETUP_KEEP_GOING:-0}
 mkdir -p build/extract build/bin replays evidence
+exec 9> build/setup.flock
+flock 9
+fail=0
 cd coq
 { echo "-Q theories JV"; find theories -name '*.v' ! -path 'theories/Extract/*' | sort; } > _CoqProject
 coq_makefile -f _CoqProject -o Makefile > /dev/null
-timeout 3000 make -j16 > "$ROOT/build/coq_make.log" 2>&1 || { tail -n 40 "$ROOT/build/coq_make.log"; echo "setup: Coq build failed"; exit 1; }
+if [ "$KEEP" = 1 ]; then MK="-k"; else MK=""; fi
+if ! timeout 3000 make $MK -j16 > "$ROOT/build/coq_make.log" 2>&1; then
+  grep -B2 -A12 '^Error' "$ROOT/build/coq_make.log" | head -n 80
+  echo "setup: Coq build failed (see build/coq_make.log)"; fail=1
+  [ "$KEEP" = 1 ] || exit 1
+fi
 cd "$ROOT/build/extract"
 for f in "$ROOT"/coq/theories/Extract/Extract_*.v; do
-  b=$(basename "$f" .v)
+  b=$(basename "$f" .v); fam=${b#Extract_}
+  d="$ROOT/ocaml/driver_$fam.ml"
+  # skip when up to date
+  if [ -x "$ROOT/build/bin/$fam" ] && [ "$ROOT/build/bin/$fam" -nt "$f" ] && [ "$ROOT/build/bin/$fam" -nt "$d" ] \
+     && [ -z "$(find "$ROOT/coq/theories" -name '*.vo' -newer "$ROOT/build/bin/$fam" | head -n 1)" ]; then continue; fi
   cp "$f" "$b.v"
-  timeout 600 coqc -Q "$ROOT/coq/theories" JV "$b.v" > "$b.log" 2>&1 || { cat "$b.log"; echo "setup: extraction $b failed"; exit 1; }
-done
-for d in "$ROOT"/ocaml/driver_*.ml; do
-  fam=$(basename "$d" .ml); fam=${fam#driver_}
+  if ! timeout 600 coqc -Q "$ROOT/coq/theories" JV "$b.v" > "$b.log" 2>&1; then
+    tail -n 20 "$b.log"; echo "setup: extraction $b failed"; fail=1; [ "$KEEP" = 1 ] && continue || exit 1
+  fi
+  [ -f "$d" ] || { echo "setup: no driver for $fam"; fail=1; [ "$KEEP" = 1 ] && continue || exit 1; }
   cp "$d" "driver_$fam.ml"
-  timeout 600 ocamlfind ocamlopt -w -a -package str -linkpkg "${fam}_x.mli" "${fam}_x.ml" "driver_$fam.ml" -o "$ROOT/build/bin/$fam" > "build_$fam.log" 2>&1 || { cat "build_$fam.log"; echo "setup: driver $fam failed"; exit 1; }
+  if ! timeout 600 ocamlfind ocamlopt -w -a -package str -linkpkg "${fam}_x.mli" "${fam}_x.ml" "driver_$fam.ml" -o "$ROOT/build/bin/$fam.tmp" > "build_$fam.log" 2>&1; then
+    tail -n 20 "build_$fam.log"; echo "setup: driver $fam failed"; fail=1; [ "$KEEP" = 1 ] && continue || exit 1
+  fi
+  mv "$ROOT/build/bin/$fam.tmp" "$ROOT/build/bin/$fam"
 done
-echo "setup: ok ($(find "$ROOT/coq/theories" -name '*.vo' | wc -l) .vo files, $(ls "$ROOT/build/bin" | wc -l) drivers)"
+if [ $fail = 0 ]; then date +%s > "$ROOT/build/setup.ok"; fi
+echo "setup: $([ $fail = 0 ] && echo ok || echo INCOMPLETE) ($(find "$ROOT/coq/theories" -name '*.vo' | wc -l) .vo files, $(ls "$ROOT/build/bin" | grep -vc '\.tmp$') drivers)"
+[ $fail = 0 ] || [ "$KEEP" = 1 ]
